@@ -13,7 +13,7 @@ def main():
     tier = vlib.tier_arg(sys.argv)
     rep = vlib.Report("C03", tier, "model_checking")
     binary = build_broker()
-    U = "all interleavings (unbounded preemptions, sleep-set reduction)"
+    U = "all interleavings up to Mazurkiewicz equivalence (unbounded preemptions; DPOR + sleep sets)"
     if tier == "quick":
         passes = [
             {"harness": "c03", "cfg": {"P": "2", "C": "1"}, "budget_s": 30,
